@@ -193,7 +193,16 @@ static void prop(Ctx &c) {
         if (which == 7) {
             Bytes D = gen::content(c, 150000).data; if (D.empty()) D.push_back('x'); spit(t.dir + "/in.dat", D); t.tool = tools + "zck"; t.args = {"-o", "out.zck", "in.dat"}; if (c.boolean()) { t.args.insert(t.args.begin(), "none"); t.args.insert(t.args.begin(), "--compression-format"); }
             t.outfile = "out.zck"; t.name = "S6 zck D[" + std::to_string(D.size()) + "]";
-            t.judge = [D](const Bytes &out) -> std::string { ref::ParseResult pr = ref::parse(out); ref::Decoded d; if (pr.ok) d = ref::decode(out, pr.h); if (!pr.ok || !d.ok) return "exit 0 but the archive is not a valid file (" + (pr.ok ? d.reason : pr.reason) + ")"; if (d.content != D) return "exit 0 but the archive decodes to " + std::to_string(d.content.size()) + " bytes, the input has " + std::to_string(D.size()); return ""; };
+            Bytes dict; bool zstd = std::find(t.args.begin(), t.args.end(), "none") == t.args.end();
+            if (c.gver >= 4) {          // the tool's other inputs and options: dictionary file (also larger than one 32 KiB block), split string, manual chunking, flag 4, chunk hash
+                if (c.chance(1, 2)) { size_t n = c.boolean() ? 1 + c.draw(3000) : 30000 + c.draw(90000); dict.resize(n); gen::fill_random(dict.data(), n, c.draw(999)); if (c.boolean() && !D.empty()) for (size_t i = 0; i < n; i++) dict[i] = D[i % D.size()];
+                    spit(t.dir + "/d.dict", dict); t.args.insert(t.args.begin(), "d.dict"); t.args.insert(t.args.begin(), "-D"); t.name += " -D[" + std::to_string(n) + "]"; }
+                if (c.rarely(3)) { t.args.insert(t.args.begin(), c.boolean() ? "<text:" : "lorem"); t.args.insert(t.args.begin(), "-s"); t.name += " -s"; if (c.boolean()) { t.args.insert(t.args.begin(), "-m"); t.name += " -m"; } }
+                if (c.rarely(4)) { t.args.insert(t.args.begin(), "-u"); t.name += " -u"; }
+                if (c.rarely(4)) { t.args.insert(t.args.begin(), c.boolean() ? "sha256" : "sha512"); t.args.insert(t.args.begin(), "-h"); t.name += " -h"; }
+            }
+            t.judge = [D, dict, zstd](const Bytes &out) -> std::string { ref::ParseResult pr = ref::parse(out); ref::Decoded d; if (pr.ok) d = ref::decode(out, pr.h); if (!pr.ok || !d.ok) return "exit 0 but the archive is not a valid file (" + (pr.ok ? d.reason : pr.reason) + ")"; if (d.content != D) return "exit 0 but the archive decodes to " + std::to_string(d.content.size()) + " bytes, the input has " + std::to_string(D.size());
+                if (zstd && !dict.empty() && d.dict != dict) return "exit 0 but the archive's dictionary has " + std::to_string(d.dict.size()) + " bytes / differs from the dictionary file given with -D (" + std::to_string(dict.size()) + " bytes)"; return ""; };
         } else {
             gen::ZFileOpts o; o.max_chunks = 6; o.max_chunk = c.boolean() ? 400 : 50000; o.allow_empty = false; gen::ZParams q = gen::zparams(c, o); if (q.dict.empty() && c.boolean()) q.dict = Bytes(120, 'd'); gen::ZFile Z = gen::zfile_build(c, q);
             spit(t.dir + "/f.zck", Z.file); t.tool = tools + "unzck"; uint64_t m = c.draw(2);
